@@ -334,6 +334,9 @@ int pthread_cond_wait(pthread_cond_t* c, pthread_mutex_t* m)
         fprintf(stderr, "vsched: pthread_cond_wait outside the scheduler would never return\n");
         abort();
     }
+    // a scheduling point BEFORE the wait: the caller evaluated its predicate earlier; a notifier that does not take the
+    // mutex (channel_accept_writes) can change the predicate and broadcast right here, before this thread is a waiter
+    point(BLK_NONE, c, m, "cond_wait-enter");
     *w = 0;                              // release and sleep atomically
     point(BLK_COND, c, m, "cond_wait");  // forced switch; resumed only after a broadcast moved us to the mutex
     *w = me + 1;
@@ -522,6 +525,19 @@ void vs_name(const volatile void* addr, const char* name)
 {
     for (int i = 0; i < NNAMES; ++i) if (NAMES[i].a == addr) { NAMES[i].name = name; return; }
     if (NNAMES < MAXNAMES) { NAMES[NNAMES].a = addr; NAMES[NNAMES].name = name; ++NNAMES; }
+}
+int vs_choose(int n)
+{
+    if (n <= 1) return 0;
+    if (n > 250) n = 250;
+    uint32_t k = R->npoints;
+    if (k >= g_max_points) finish(ST_HORIZON, "step-horizon", "too many choice points");
+    int chosen = 0;
+    if (k < g_prefix_len) { chosen = g_prefix[k]; if (chosen >= n) finish(ST_DIVERGED, "replay-diverged", "recorded harness choice out of range"); }
+    R->pts[k].n = (uint8_t)n; R->pts[k].nE = (uint8_t)n; R->pts[k].cur_in_E = 0; R->pts[k].chosen = (uint8_t)chosen;
+    R->npoints = k + 1;
+    if (g_trace) notef("        harness choice %d of %d", chosen, n);
+    return chosen;
 }
 struct spawn_arg { void (*fn)(void*); void* arg; };
 static void* spawn_tramp(void* p) { struct spawn_arg a = *(struct spawn_arg*)p; free(p); a.fn(a.arg); return 0; }
